@@ -229,6 +229,8 @@ func runC06(c *Ctx) {
 		}
 		c.St.Eval("twins:"+t.Token(), true)
 	}
+	c.omoObj("C06")
+	c.sharedBoxes()
 	for i := 0; i < c.N(300, 4000); i++ {
 		m.Case("random")
 		p := &Prog{c: c}
@@ -269,6 +271,11 @@ func runC08(c *Ctx) {
 	opts := &TreeOpts{MaxDepth: 4, MaxWidth: 4, Keys: r.SimpleKey}
 	c.deepChains()
 	c.entryWays()
+	c.omoList("C08")
+	c.omoObj("C08")
+	c.derivedCorners("C08")
+	c.growShrink()
+	c.sharedBoxes()
 	for i := 0; i < c.N(400, 6000); i++ {
 		m.Case("clone-then-mutate")
 		t := r.Container(opts, "[{"[r.Intn(2)])
@@ -504,6 +511,11 @@ func (c *Ctx) deepChains() {
 func runC09(c *Ctx) {
 	m, r := c.M, c.R
 	c.St.Rule = "receivers in every growth history x every deriving operation applied twice x every mutator applied to receiver, argument and both results in turn, all containers snapshotted after each step; non-trivial always (>= 6 operations); distinct by (history, deriving op, mutator)"
+	c.omoList("C09")
+	c.omoObj("C09")
+	c.sharedBoxes()
+	c.growShrink()
+	c.longLists("C09")
 	histories := c.N(8, 12)
 	derivers := []string{"concat", "sublist", "filter", "filterk", "map", "mapk", "mapasync", "slice", "slicek", "reduce", "string", "fmtstr", "equals", "contains", "clone", "foreach"}
 	mutators := []string{"add", "insert", "replace", "delete", "pop", "clear", "sort", "reverse"}
@@ -721,6 +733,27 @@ func runC12(c *Ctx) {
 		}
 		vals = append(vals, &GV{K: k, Fl: 'a', Xs: []*GV{{K: '(', Fl: 's', NilC: true}, {K: '<', Fl: 'a', NilC: true}}, Keys: []string{"x", "y"}})
 	}
+	// typed containers with a nil member (a nil Object / List interface is stored as nil)
+	vals = append(vals, &GV{K: '(', Fl: 'o', Xs: []*GV{gvNil()}}, &GV{K: '(', Fl: 'l', Xs: []*GV{gvNil()}},
+		&GV{K: '<', Fl: 'o', Xs: []*GV{gvNil()}, Keys: []string{"k"}}, &GV{K: '<', Fl: 'l', Xs: []*GV{gvNil()}, Keys: []string{"k"}},
+		&GV{K: '(', Fl: 'a', Xs: []*GV{{K: '<', Fl: 'l', Xs: []*GV{gvNil()}, Keys: []string{"k"}}}})
+	// native nesting far deeper than any literal
+	for _, depth := range []int{40, c.N(600, 12000)} {
+		g := gvInt(1)
+		for d := 0; d < depth; d++ {
+			if d%2 == 0 {
+				g = &GV{K: '(', Fl: 'a', Xs: []*GV{g}}
+			} else {
+				g = &GV{K: '<', Fl: 'a', Xs: []*GV{g}, Keys: []string{"d"}}
+			}
+		}
+		m.Case("deep-native")
+		m.NewList(g)
+		o := m.NewObject(gvStr("x"), gvInt(0))
+		m.OSet(o, gvStr("deep"), g)
+	}
+	c.sharedBoxes()
+	c.omoObj("C06")
 	nontrivial := func(g *GV) bool { return !(g.K == 'n' || g.K == 'b' || g.K == 'i' || g.K == 'd' || g.K == 's') }
 	for _, g := range vals {
 		m.Case("entry-points")
@@ -802,6 +835,10 @@ func runC12(c *Ctx) {
 func runC13(c *Ctx) {
 	m, r := c.M, c.R
 	c.St.Rule = "native trees -> New*From -> Native*/Dict/Slice compared structurally; then the source native value, the export and the container are modified in turn and the others re-observed; non-trivial = depth >= 2; distinct by tree"
+	c.omoList("C13")
+	c.omoObj("C13")
+	c.derivedCorners("C13")
+	c.nativeAfterDerivations()
 	opts := &TreeOpts{MaxDepth: 5, MaxWidth: 5}
 	for i := 0; i < c.N(500, 8000); i++ {
 		m.Case("native")
@@ -867,6 +904,72 @@ func runC13(c *Ctx) {
 	}
 }
 
+// nativeAfterDerivations: native conversion of containers that came into being through every deriving
+// operation (a result must not inherit a "flat" view of its receiver), and of very deep trees.
+func (c *Ctx) nativeAfterDerivations() {
+	m := c.M
+	for _, way := range []string{"concat-flat-recv", "concat-empty-recv", "sublist", "filter", "map", "clone", "merge", "pluck", "values", "add-after", "settf"} {
+		m.Case("native-after-derivation")
+		inner := m.NewList(gvInt(1), m.RefGV(m.NewObject(gvStr("k"), gvInt(2))))
+		flat := m.NewList(gvInt(1), gvInt(2))
+		withC := m.NewList(gvStr("x"), m.RefGV(inner))
+		var res string
+		switch way {
+		case "concat-flat-recv":
+			res = m.Concat(flat, withC)
+		case "concat-empty-recv":
+			res = m.Concat(m.NewList(), withC)
+		case "sublist":
+			res = m.SubList(withC, 0, 0)
+		case "filter":
+			res = m.Filter(withC, "all")
+		case "map":
+			res = m.Map(withC, &Fn{Name: "id"})
+		case "clone":
+			res = m.Clone(withC)
+		case "merge":
+			res = m.Merge(m.NewObject(gvStr("a"), gvInt(1)), m.NewObject(gvStr("l"), m.RefGV(inner)))
+		case "pluck":
+			res = m.Pluck(m.NewObject(gvStr("l"), m.RefGV(inner), gvStr("a"), gvInt(1)), "l")
+		case "values":
+			res = m.Values(m.NewObject(gvStr("l"), m.RefGV(inner)))
+		case "add-after":
+			res = flat
+			m.NativeSlice(res)
+			m.Add(res, m.RefGV(inner))
+		case "settf":
+			res = flat
+			m.NativeSlice(res)
+			m.SetTF(res, "#4.k#1", m.RefGV(inner))
+		}
+		if res[0] == 'O' {
+			m.NativeDict(res)
+			m.Dict(res)
+		} else {
+			m.NativeSlice(res)
+			m.Slice(res)
+		}
+		c.St.Eval("native-after:"+way, true)
+	}
+	for _, depth := range []int{100, 511, 512, 513, c.N(700, 3000)} {
+		m.Case("native-deep")
+		cur := m.NewList(gvInt(1))
+		for d := 0; d < depth; d++ {
+			if d%2 == 0 {
+				cur = m.NewObject(gvStr("d"), m.RefGV(cur))
+			} else {
+				cur = m.NewList(m.RefGV(cur))
+			}
+		}
+		if cur[0] == 'O' {
+			m.NativeDict(cur)
+		} else {
+			m.NativeSlice(cur)
+		}
+		c.St.Eval(fmt.Sprint("native-deep:", depth), true)
+	}
+}
+
 // mutateNative changes a native tree in place at every depth.
 func mutateNative(v any) {
 	switch x := v.(type) {
@@ -889,6 +992,10 @@ func mutateNative(v any) {
 func runC14(c *Ctx) {
 	m, r := c.M, c.R
 	c.St.Rule = "lists and objects with 0-4 elements of each kind interleaved in random order, every typed and untyped view with callbacks from a seeded family; non-trivial = at least two kinds occur at least twice; distinct by container"
+	c.omoList("C14")
+	c.omoObj("C14")
+	c.longLists("C14")
+	c.derivedCorners("C14")
 	fns := []*Fn{{Name: "id"}, {Name: "inc"}, {Name: "tostr"}, {Name: "idx"}, {Name: "const", Const: gvStr("c")}}
 	preds := []string{"all", "none", "par"}
 	for i := 0; i < c.N(250, 4000); i++ {
@@ -997,6 +1104,7 @@ func runC14(c *Ctx) {
 func runC17(c *Ctx) {
 	m, r := c.M, c.R
 	c.St.Rule = "homogeneous string/int/float lists of every length 1..9 over a 3-value alphabet exhaustively, long random lists with extreme values, Reverse on mixed lists of even and odd length; non-trivial = length >= 2; distinct by list"
+	c.omoList("C17")
 	alph := map[byte][]*GV{
 		'i': {gvInt(-1), gvInt(0), gvInt(7)},
 		's': {gvStr(""), gvStr("a"), gvStr("é")},
@@ -1097,6 +1205,8 @@ func runC17(c *Ctx) {
 func runC18(c *Ctx) {
 	m, r := c.M, c.R
 	c.St.Rule = "numeric lists: all sequences of length <= 5 over {-2.5, -1, 0, 3, 1e300} with ints and floats interleaved, all-negative lists, values near MaxInt/MinInt, non-int elements interleaved for the Int* family; non-trivial = length >= 2; distinct by list"
+	c.omoList("C18")
+	c.longLists("C18")
 	aggs := []string{"intsum", "sum", "intprod", "prod", "avg", "intmin", "min", "intmax", "max"}
 	alph := []*GV{gvFloat(-2.5), gvInt(-1), gvInt(0), gvInt(3), gvFloat(1e300), gvFloat(-7), gvInt(-4)}
 	maxLen := c.N(3, 5)
@@ -1170,6 +1280,9 @@ func runC19(c *Ctx) {
 		m.Case("api-table")
 		m.Alarm("C19", msg)
 	}
+	c.fluentStates()
+	c.derivedCorners("C19")
+	c.longLists("C19")
 	for lvl := 1; lvl <= 2; lvl++ {
 		for rep := 0; rep < c.N(3, 30); rep++ {
 			m.Case(fmt.Sprintf("fluent-level-%d", lvl))
